@@ -38,6 +38,7 @@ class Lib:
         self.by_name = {c['name']: c for c in d['classes']}
         self.enum_values = set(d['enum_values'])
         self.class_types = {c['type'] for c in d['classes']}
+        self.all_types = sorted(self.class_types)
         self.max_expected = d['max_expected']
         self.notes = d['notes']
         self.unknown_types = [t for t in (1, 9999, 20000, 40000, 65535) if t not in self.enum_values]
@@ -75,8 +76,11 @@ class Gen:
             t = r.choice(lib.unknown_types + lib.enum_noclass[:2])
             return mk(t, bytes(r.randrange(256) for _ in range(r.choice([0, 1, 5, 16, 17, 40]))), self.nseq())
         if kind == 'flip':
-            m = bytearray(self.valid_msg())
-            region = r.choice(['sync', 'reserved', 'crc', 'hdr', 'hdr', 'payload', 'payload'])
+            m = bytearray(self.valid_msg(small=r.random() < 0.5))
+            region = r.choice(['sync', 'reserved', 'crc', 'hdr', 'hdr', 'payload', 'payload', 'retype', 'retype'])
+            if region == 'retype':        # type field re-pointed at another registered class (CRC then fails)
+                t = r.choice(lib.all_types)
+                return bytes(m[:10]) + struct.pack('<H', t) + bytes(m[12:])
             lo, hi = {'sync': (0, 2), 'reserved': (2, 4), 'crc': (4, 8), 'hdr': (8, 24), 'payload': (24, len(m))}[region]
             if hi <= lo:
                 lo, hi = 4, 8
@@ -179,15 +183,16 @@ def random_partition(r, n, empties=True):
 
 
 class Case:
-    __slots__ = ('tokens', 'stream', 'maxp', 'maxe', 'rb', 'ro', 'chunkings', 'origin')
+    __slots__ = ('tokens', 'stream', 'maxp', 'maxe', 'rb', 'ro', 'chunkings', 'origin', 'opts')
 
-    def __init__(self, tokens, maxp, maxe, rb, ro, chunkings, origin):
+    def __init__(self, tokens, maxp, maxe, rb, ro, chunkings, origin, opts='likely,0,0'):
         self.tokens, self.maxp, self.maxe, self.rb, self.ro, self.chunkings, self.origin = tokens, maxp, maxe, rb, ro, chunkings, origin
+        self.opts = opts              # warn_on_error, warn_on_gap, warn_on_unrecognized (logging options)
         self.stream = b''.join(b for _, b in tokens)
 
     def impl_line(self, mode='S', chunkings=None):
-        return '%s %d %s %d %d %s %s' % (mode, self.maxp, '-' if self.maxe is None else self.maxe, self.rb, self.ro,
-                                         self.stream.hex() or '-', chunkings or self.chunkings)
+        return '%s %d %s %d %d %s %s %s' % (mode, self.maxp, '-' if self.maxe is None else self.maxe, self.rb, self.ro, self.opts,
+                                            self.stream.hex() or '-', chunkings or self.chunkings)
 
     def model_line(self, oracle, default_maxe, mode='S', chunkings=None, legacy=0):
         return '%s %d %d %d %d %d %s %s %s' % (mode, self.maxp, default_maxe if self.maxe is None else self.maxe, self.rb, self.ro,
@@ -195,13 +200,14 @@ class Case:
 
     def describe(self):
         return {'tokens': [(k, b.hex()) for k, b in self.tokens], 'stream_hex': self.stream.hex(), 'max_payload_len_bytes': self.maxp,
-                'patched_MAX_EXPECTED_SIZE_BYTES': self.maxe, 'return_bytes': bool(self.rb), 'return_offset': bool(self.ro),
+                'patched_MAX_EXPECTED_SIZE_BYTES': self.maxe, 'return_bytes': bool(self.rb), 'return_offset': bool(self.ro), 'logging_options': self.opts,
                 'chunkings': self.chunkings, 'origin': self.origin}
 
     @staticmethod
     def from_desc(d):
         return Case([(k, bytes.fromhex(h)) for k, h in d['tokens']], d['max_payload_len_bytes'], d['patched_MAX_EXPECTED_SIZE_BYTES'],
-                    int(d['return_bytes']), int(d['return_offset']), d['chunkings'], d.get('origin', 'replay'))
+                    int(d['return_bytes']), int(d['return_offset']), d['chunkings'], d.get('origin', 'replay'),
+                    d.get('logging_options', 'likely,0,0'))
 
 
 def n_chunkings(c):
@@ -323,7 +329,7 @@ class Engine:
         return res
 
     def verbose(self, case, chunking):
-        c1 = Case(case.tokens, case.maxp, case.maxe, case.rb, case.ro, chunking, case.origin)
+        c1 = Case(case.tokens, case.maxp, case.maxe, case.rb, case.ro, chunking, case.origin, case.opts)
         r = self.run([c1], 'V')[0]
         if isinstance(r, str):
             return None, r
@@ -348,7 +354,7 @@ class Engine:
             rounds += 1
             for k in range(len(cur.tokens)):
                 toks = cur.tokens[:k] + cur.tokens[k + 1:]
-                cand = Case(toks, cur.maxp, cur.maxe, cur.rb, cur.ro, cur_ch, cur.origin)
+                cand = Case(toks, cur.maxp, cur.maxe, cur.rb, cur.ro, cur_ch, cur.origin, cur.opts)
                 ch = cur_ch
                 if ch.startswith('c:'):
                     # keep the same cut positions where they still fit
@@ -382,6 +388,7 @@ class Engine:
                 ctx.count('token:' + k)
             ctx.count('config:maxp=%s' % ('0' if case.maxp == 0 else '16' if case.maxp == 16 else '2^24' if case.maxp == M24 else '>2^24' if case.maxp > M24 else 'exact'))
             ctx.count('config:flags=rb%d,ro%d' % (case.rb, case.ro))
+            ctx.count('config:logging=' + case.opts)
             if case.maxe is not None:
                 ctx.count('config:patched-sanity-limit')
             verdict_hist(case.stream, case.maxp, self.default_maxe if case.maxe is None else case.maxe, ctx.count)
@@ -408,7 +415,7 @@ class Engine:
         pick = (spread([m for m in mism if 'spec' in m[2]], 400) + spread([m for m in mism if 'model' in m[2]], 100) +
                 spread([m for m in mism if 'attrs' in m[2] and 'spec' not in m[2]], 200) +
                 spread([m for m in mism if 'attrs' in m[2] and 'spec' in m[2]], 200))
-        vcases = [Case(c.tokens, c.maxp, c.maxe, c.rb, c.ro, ch, c.origin) for c, ch, _ in pick]
+        vcases = [Case(c.tokens, c.maxp, c.maxe, c.rb, c.ro, ch, c.origin, c.opts) for c, ch, _ in pick]
         vres = self.run(vcases, 'V')
         groups = {}
         for (case, ch, kinds), vc, r in zip(pick, vcases, vres):
@@ -484,8 +491,14 @@ def build_cases(ctx, lib, profile):
         parts += ['c:' + ','.join(map(str, random_partition(r, n))) for _ in range(3)]
         return ';'.join(parts)
 
-    def add(tokens, maxp, maxe, rb, ro, origin):
-        c = Case(tokens, maxp, maxe, rb, ro, '', origin)
+    nadd = [0]
+
+    def add(tokens, maxp, maxe, rb, ro, origin, opts=None):
+        # logging options rotate independently of everything else: default ('likely') half of the time
+        j = nadd[0]; nadd[0] += 1
+        if opts is None:
+            opts = '%s,%d,%d' % (('likely', 'all', 'likely', 'none')[j % 4], (j // 4) % 2, (j // 8) % 2)
+        c = Case(tokens, maxp, maxe, rb, ro, '', origin, opts)
         c.chunkings = chunkings(c.stream)
         cases.append(c)
 
@@ -512,13 +525,26 @@ def build_cases(ctx, lib, profile):
             if p:
                 p[r.randrange(len(p))] = r.randrange(256)
         add([('valid_pert', mk(c['type'], bytes(p), g.nseq(), ver=c['version'] or 0)), ('valid', follower)], M24, None, 1, 1, 'per-class')
-        # CRC failure on a message of this class (the decoder consults cls.calcsize() on that path), then a valid message
-        bad = bytearray(m); bad[r.randrange(24, len(bad)) if len(bad) > 24 else 5] ^= 1 << r.randrange(8)
-        add([('flip', bytes(bad)), ('valid', follower)], M24, None, 1, 1, 'per-class')
+        # CRC failures on a message of this class (the decoder consults the class on that path), followed by a valid message:
+        # flipped bit in the payload, in the crc field, in the header fields, and the type field of ANOTHER message
+        # re-pointed at this class (so the payload size is not this class's), each under every warn_on_error setting
+        other = g.valid_msg()
+        retyped = other[:10] + struct.pack('<H', c['type']) + other[12:]
+        for woe in ('likely', 'all', 'none'):
+            variants = []
+            bad = bytearray(m); bad[r.randrange(24, len(bad)) if len(bad) > 24 else 5] ^= 1 << r.randrange(8); variants.append(bytes(bad))
+            bad = bytearray(m); bad[r.randrange(4, 8)] ^= 1 << r.randrange(8); variants.append(bytes(bad))
+            bad = bytearray(m); bad[r.choice([8, 9, 12, 13, 20, 21])] ^= 1 << r.randrange(8); variants.append(bytes(bad))
+            variants.append(retyped)
+            for v in variants:
+                add([('flip', v), ('valid', follower)], M24, None, 1, 1, 'per-class-corrupted', '%s,%d,%d' % (woe, r.randrange(2), r.randrange(2)))
     # classes whose default object cannot be serialised: a message of that type with a short payload, and a CRC failure
     for c in lib.unbuildable:
         add([('lenerr_greedy', mk(c['type'], bytes(8), g.nseq())), ('valid', g.valid_msg())], M24, None, 1, 1, 'per-class-unbuildable')
-        add([('flip', mk(c['type'], bytes(8), g.nseq(), crc=12345)), ('valid', g.valid_msg())], M24, None, 1, 1, 'per-class-unbuildable')
+        for woe in ('likely', 'all', 'none'):
+            for n in (0, 8, 40):
+                add([('flip', mk(c['type'], bytes(n), g.nseq(), crc=12345)), ('valid', g.valid_msg())], M24, None, 1, 1, 'per-class-unbuildable',
+                    '%s,%d,%d' % (woe, r.randrange(2), r.randrange(2)))
     # bounded-exhaustive token sequences
     import itertools
     # C04: all sequences up to length 3 (quick) / 4 (thorough); C05 (about 100 chunkings per stream): all up to length 2
@@ -572,7 +598,9 @@ def common_evidence(ctx, eng, profile, cases):
     ctx.coverage['rule'] = (
         'streams = concatenations of tokens of %d kinds (%s); every registered payload class (%d buildable by the encoder, %d not) appears alone, '
         'followed by another message and between junk, with its default payload and a perturbed one; bounded-exhaustive token sequences, '
-        'sequences under all 16 (max_payload_len_bytes in {0,16,exact,2^24}) x (return_bytes, return_offset) settings, random sequences of 3-9 tokens, '
+        'for every class also CRC-failing variants (bit flipped in payload / crc field / header fields, and another message whose type field is re-pointed at the class) '
+        'under each warn_on_error setting; sequences under all 16 (max_payload_len_bytes in {0,16,exact,2^24}) x (return_bytes, return_offset) settings, random sequences of 3-9 tokens, '
+        'the logging options warn_on_error (none/likely/all), warn_on_gap, warn_on_unrecognized rotate over all streams (log output suppressed), '
         'maxima above 2^24 and runs with the sanity limit patched to a small value. Each stream is decoded by the implementation, by the extracted MODEL '
         '(PyDecoder_on_data) and by the extracted SPEC (feed PyDecoder_judge) under every listed chunking; per call the returned '
         '(type, sequence, payload size, crc, raw bytes, offset, digest of payload field values) and callback deliveries are compared with the SPEC, '
@@ -589,7 +617,7 @@ def common_evidence(ctx, eng, profile, cases):
         'with the outcome of cls().unpack on the message bytes alone (harness/py/c04_streams.py)',
         'stream generator and IMPL harness harness/py/c04_streams.py, props/c04.py']
     ctx.assumptions += ['max_payload_len_bytes is a non-negative integer', 'data passed to on_data is bytes (the int form is a one-byte chunk)',
-                        'logging is disabled in the harness (log output is not an observable of the property)']
+                        'log output is suppressed in the harness (logging.disable) and is not an observable of the property; the logging options themselves are varied']
     for c in cases[:3]:
         ctx.sample({'tokens': [k for k, _ in c.tokens], 'bytes': len(c.stream), 'max_payload_len_bytes': c.maxp, 'chunkings': c.chunkings[:80]})
 
@@ -626,7 +654,7 @@ def replay(ctx, rec):
     c1, v = eng.verbose(c, ch)
     if c1 is None:
         print(v); return 1
-    print('stream  ', c.stream.hex()); print('settings', {k: case[k] for k in ('max_payload_len_bytes', 'patched_MAX_EXPECTED_SIZE_BYTES', 'return_bytes', 'return_offset')}, 'chunking', ch)
+    print('stream  ', c.stream.hex()); print('settings', {k: case.get(k) for k in ('max_payload_len_bytes', 'patched_MAX_EXPECTED_SIZE_BYTES', 'return_bytes', 'return_offset', 'logging_options')}, 'chunking', ch)
     print('IMPL    ', v['impl_R'], '|', v['impl_A'][-200:]); print('MODEL   ', v['model_R'], '|', v['model_A'][-200:]); print('SPEC    ', v['spec_R'])
     print('signature', classify(v['impl_R'], v['model_R'], v['spec_R']) if v['impl_R'] != v['spec_R'] else 'agree')
     return 0 if v['impl_R'] == v['spec_R'] else 1
